@@ -11,8 +11,9 @@ behaviourally identical ones (DESIGN.md section 5, must-stay-silent corpus):
   two non-constant operands of == / != are put in text order
 * ``not (a <op> b)``             ->  the negated comparison
 * ``pass`` next to other statements is dropped
-* ``t = E`` directly followed by ``return t`` / ``if t:`` (t used nowhere
-  else)                          ->  ``return E`` / ``if E:``
+* ``t = E`` directly followed by the one and only use of t, in a simple
+  statement or an ``if`` test    ->  E substituted for t
+* ``n = n + K`` / ``n = n - K`` (K an int literal)  ->  ``n += K`` / ``n -= K``
 
 Positions (lineno) are kept; evaluation order inside one expression is not
 modelled by any rule, so swapping comparison operands is harmless here."""
@@ -72,6 +73,23 @@ class _Canon(ast.NodeTransformer):
             return self.visit_Compare(test), True
         return test, False
 
+    def visit_Assign(self, node):
+        self.generic_visit(node)
+        if len(node.targets) == 1 and isinstance(node.targets[0], ast.Name) and \
+                isinstance(node.value, ast.BinOp) and \
+                isinstance(node.value.op, (ast.Add, ast.Sub)):
+            nm = node.targets[0].id
+            l, r = node.value.left, node.value.right
+            isint = lambda e: isinstance(e, ast.Constant) and type(e.value) is int
+            if isinstance(l, ast.Name) and l.id == nm and isint(r):
+                return ast.copy_location(ast.AugAssign(
+                    target=ast.Name(id=nm, ctx=ast.Store()), op=node.value.op, value=r), node)
+            if isinstance(r, ast.Name) and r.id == nm and isint(l) and \
+                    isinstance(node.value.op, ast.Add):
+                return ast.copy_location(ast.AugAssign(
+                    target=ast.Name(id=nm, ctx=ast.Store()), op=node.value.op, value=l), node)
+        return node
+
     def visit_If(self, node):
         self.generic_visit(node)
         if node.orelse:
@@ -101,6 +119,22 @@ def _count_names(fn):
     return out
 
 
+class _Subst(ast.NodeTransformer):
+    def __init__(self, name, value):
+        self.name, self.value, self.done = name, value, False
+
+    def visit_Name(self, node):
+        if node.id == self.name and isinstance(node.ctx, ast.Load) and not self.done:
+            self.done = True
+            return self.value
+        return node
+
+    def visit_If(self, node):
+        # only the test of an `if`, never its body
+        node.test = self.visit(node.test)
+        return node
+
+
 def _inline_return_temps(fn):
     counts = _count_names(fn)
 
@@ -112,19 +146,34 @@ def _inline_return_temps(fn):
             nxt = stmts[i + 1] if i + 1 < len(stmts) else None
             if isinstance(st, ast.Assign) and len(st.targets) == 1 and \
                     isinstance(st.targets[0], ast.Name) and \
-                    counts.get(st.targets[0].id, 0) == 2:
+                    counts.get(st.targets[0].id, 0) == 2 and nxt is not None and \
+                    not isinstance(st.value, (ast.Lambda, ast.Yield, ast.YieldFrom, ast.Await)):
                 nm = st.targets[0].id
-                if isinstance(nxt, ast.Return) and isinstance(nxt.value, ast.Name) \
-                        and nxt.value.id == nm:
-                    nxt.value = st.value
-                    i += 1
-                    continue
-                if isinstance(nxt, ast.If) and isinstance(nxt.test, ast.Name) \
-                        and nxt.test.id == nm:
-                    # `t = <cond>` ; `if t:`  (t used nowhere else)
-                    nxt.test = st.value
-                    i += 1
-                    continue
+                # `t = E` directly followed by the only use of t, in a simple
+                # statement or an `if` test: substitute E for t
+                if isinstance(nxt, ast.If):
+                    host = nxt.test
+                elif isinstance(nxt, (ast.Return, ast.Expr, ast.Assign, ast.AugAssign)) \
+                        and not isinstance(getattr(nxt, "value", None),
+                                           (ast.Lambda,)):
+                    host = nxt
+                else:
+                    host = None
+                if host is not None:
+                    uses = [n for n in ast.walk(host) if isinstance(n, ast.Name)
+                            and n.id == nm and isinstance(n.ctx, ast.Load)]
+                    inner = any(isinstance(n, (ast.Lambda, ast.ListComp, ast.SetComp,
+                                               ast.DictComp, ast.GeneratorExp))
+                                and any(isinstance(x, ast.Name) and x.id == nm
+                                        for x in ast.walk(n))
+                                for n in ast.walk(host))
+                    if len(uses) == 1 and not inner:
+                        _Subst(nm, st.value).visit(nxt if host is nxt else nxt)
+                        if isinstance(nxt, ast.If) and host is nxt.test and \
+                                isinstance(nxt.test, ast.Name) and nxt.test.id == nm:
+                            nxt.test = st.value
+                        i += 1
+                        continue
             for fld in ("body", "orelse", "finalbody"):
                 b = getattr(st, fld, None)
                 if isinstance(b, list) and b and isinstance(b[0], ast.stmt) and \
